@@ -42,6 +42,7 @@ package snowflake_proxy
 // data channel: then the slot goes to the data channel handler (which releases it, see datachannelHandler).
 // A broker-supplied relay URL reaches the peer connection only if its hostname is inside the proxy's own pattern and
 // its scheme is wss (unless non-TLS relays were explicitly allowed); the handler gets that very URL.
+//@ ghost var answerFailed bool
 //@ func (sf *SnowflakeProxy) runSession(sid string)
 //@   props C16, C06
 //@   flag nosafety
@@ -61,6 +62,11 @@ package snowflake_proxy
 //   (the hand-over is closed by winning the claim the callback also needs: sync.Once runs exactly one of the two)
 //@   after call Do ghost handoverOpen = false if timedOut
 //@   at call ret assert {no-release-while-the-data-channel-handler-may-still-take-the-slot} !handoverOpen
+//   A failed sendAnswer does not prove that the client never got the answer: the peer connection (and with it the
+//   OnDataChannel callback that would take the slot) is closed before the slot is given back.
+//@   at entry ghost answerFailed = false
+//@   after call sendAnswer ghost answerFailed = ret0 != nil
+//@   at call ret assert {peer-connection-closed-before-the-slot-of-a-failed-answer-is-returned} answerFailed ==> calls(Close) == 1
 //@   after call IsMember ghost hostOK = ret0
 //@   at call NewNameMatcher assert {own-pattern} arg0 == sf.RelayDomainNamePattern
 //@   at call makePeerConnectionFromOffer assert {relay-url-gate} relayURL == "" || (hostOK && (sf.AllowNonTLSRelay || parsedRelayURL.Scheme == "wss"))
@@ -111,6 +117,48 @@ package snowflake_proxy
 //@   props C13
 //@   flag nosafety
 //@   ensures {nil-or-ip-address} a == nil || tagis(a, *net.IPAddr)
+//
+// ---- the NAT probe (C13): the probe server's reply is remote input like an offer; whatever it contains, the
+// measurement returns instead of dereferencing a description that was not accepted. Only the nil-dereference sweep is
+// on (pion objects are opaque); the probe URL is the operator's own configuration, assumed to parse.
+//@ func newSignalingServer(rawURL string, keepLocalAddresses bool) (r *SignalingServer, err error)
+//@   props C13
+//@   flag nosafety
+//@   ensures {value-or-error} (err == nil) <==> (r != nil)
+//@   ensures (err == nil) <==> urlParses(rawURL)
+//@   ensures r != nil ==> r.url != nil && r.transport != nil
+//
+//@ func (sf *SnowflakeProxy) makeNewPeerConnection(config webrtc.Configuration, dataChan chan struct{}) (r *webrtc.PeerConnection, err error)
+//@   props C13
+//@   flag nosafety
+//@   ensures {value-or-error} (err == nil) <==> (r != nil)
+//
+//@ func getCurrentNATType() (r string)
+//@   props C13
+//@   flag nosafety
+//
+//@ func (sf *SnowflakeProxy) checkNATType(config webrtc.Configuration, probeURL string)
+//@   props C13
+//@   flag nosafety safety-keep=nil
+//@   requires sf != nil
+//@   assumes urlParses(probeURL)
+//
+// ---- the relay loop (C16): the data channel handler holds the session's slot until copyLoop returns, and copyLoop
+// returns when one of its two copiers has ended (or at shutdown). So a copier that ends - for whatever reason: end of
+// stream, closed pipe, a relay connection that died with an error - must announce it by closing `done`; a copier
+// that returns without doing so leaves the handler, and the slot, parked forever.
+//@ func copyLoop$1(dst io.ReadWriteCloser, src io.ReadWriteCloser)
+//@   props C16
+//@   flag nosafety
+//@   assumes done != nil && (oncedone(&once) <==> closed(done))
+//@   ensures {a-copier-that-ends-ends-the-relay} closed(done)
+//
+//@ func copyLoop(c1 io.ReadWriteCloser, c2 io.ReadWriteCloser, shutdown chan struct{})
+//@   props C16
+//@   flag nosafety
+//@   requires c1 != nil && c2 != nil
+//@   ensures {both-directions-started} spawns(copyer) == 2
+//@   ensures {both-ends-closed} calls(Close) == 2
 //
 // ---- guarded-by declarations (C20) ----
 //@ guarded webRTCConn.dc by lock
